@@ -534,7 +534,7 @@ def only_guards(g, n, allowed):
 
 def _kill(env, name):
     env.pop(name, None)
-    for k in [k for k, v in env.items() if name in names_in(v)]:
+    for k in [k for k, v in env.items() if not k.startswith('#') and name in names_in(v)]:
         env.pop(k)
 
 
@@ -695,10 +695,19 @@ def path_conditions(run, g, rd, start, target, limit=5000, through_exc=False, pr
             count[0] += 1
             L = Lits(lits)
             L.groups = tuple(groups)
+            L.assigns = dict(env.get('#assigns', {}))
             out.append(L)
             return
         env2 = dict(env)
         _update_env(env2, n)
+        # every simple local assignment seen on the path (no purity restriction; for provenance, not for conditions)
+        asg = dict(env.get('#assigns', {}))
+        if n.kind == 'stmt' and isinstance(n.ast, ast.Assign) and len(n.ast.targets) == 1 and isinstance(n.ast.targets[0], ast.Name):
+            asg[n.ast.targets[0].id] = (n.ast.value, n)
+        else:
+            for nm_ in _defs(n):
+                asg.pop(nm_, None)
+        env2['#assigns'] = asg
         post = None
         for (m, l) in n.succ:
             if l.startswith('exc:') and not through_exc:
@@ -1806,3 +1815,58 @@ def exactly_once(g, starts, marks, ends, skip_edge=None):
         if any(m2 in after for m2 in marks):
             return False
     return True
+
+
+# ------------------------------------------------------------------------------ frame header model
+def header_arms(R, g, rd, start):
+    """Symbolic model of the frame header Frame.build produces: for every statement that packs the two leading bytes
+    (a struct pack whose format starts with '!BB') and every path from ``start`` (the length definition) to it, the
+    header as one combined struct format with its argument expressions - `pack('!BBH', b0, b1, n)` and
+    `pack('!BB', b0, b1) + pack('!H', n)` are the same bytes (network order, no padding).  Locals are replaced by what
+    the path assigned to them.  Returns [(node, fmt, [arg exprs], path literals)]."""
+    out = []
+    nodes = []
+    for n in g.live_nodes():
+        if any((struct_format(R, g.ctx, c) or ('', ''))[0] == 'pack' and (struct_format(R, g.ctx, c) or ('', ''))[1].startswith('!BB')
+               for c in n.calls):
+            nodes.append(n)
+    for n in nodes:
+        if not (n.kind == 'stmt' and isinstance(n.ast, (ast.Assign, ast.Return)) and n.ast.value is not None):
+            raise AnalysisError('Frame.build: header packed in an unexpected statement: %s' % n.text()[:60])
+        for l in path_conditions(R, g, rd, start, n):
+            asg = getattr(l, 'assigns', {})
+
+            def parts(e, depth=0):
+                ps = concat_parts(e)
+                if ps is not None:
+                    res = []
+                    for x in ps:
+                        r = parts(x, depth)
+                        if r is None:
+                            return None
+                        res += r
+                    return res
+                if isinstance(e, ast.Constant) and e.value in (b'',):
+                    return []
+                if isinstance(e, ast.Name) and e.id in asg and depth < 4:
+                    return parts(asg[e.id][0], depth + 1)
+                if isinstance(e, ast.Call):
+                    sf = struct_format(R, g.ctx, e)
+                    if sf and sf[0] == 'pack':
+                        return [(sf[1].lstrip('!'), list(e.args))]
+                return None
+            ps = parts(n.ast.value)
+            if ps is None:
+                raise AnalysisError('Frame.build: cannot model the header expression %s' % U(n.ast.value)[:80])
+            # only the leading run of struct packs belongs to the header (key and payload follow)
+            fmt = '!' + ''.join(c for (c, a) in ps)
+            args = [a for (c, a_) in ps for a in a_]
+
+            def sub(e, depth=0):
+                if isinstance(e, ast.Name) and e.id in asg and depth < 4 and isinstance(asg[e.id][0], (ast.Constant, ast.Name)):
+                    return sub(asg[e.id][0], depth + 1)
+                if isinstance(e, ast.BinOp):
+                    return ast.BinOp(left=sub(e.left, depth), op=e.op, right=sub(e.right, depth))
+                return e
+            out.append((n, fmt, [sub(a) for a in args], l))
+    return out
